@@ -123,6 +123,43 @@ def bisection_rules(ctx, rid="R3"):
             ctx.undecided(o2, "paths not decided")
 
 
+def depot_stripping(ctx, rid="R1"):
+    """insert_path into a dummy tour strips a leading and a trailing depot of the path independently of each other"""
+    key = T("insert_path")
+    o, fd0 = ctx.require_fn("%s.insert_path.depots-stripped-independently" % rid, "T12", key,
+                            "for a dummy tour the path's first node is dropped iff IT is a depot and the last node iff IT is a depot")
+    if fd0 is None:
+        return
+    PATH = "solution::path::Path::"
+    seen, bad = 0, []
+    for fd in hosts(ctx, key, 1):
+        for c in fd.body.calls():
+            nm = (c.callee or "")
+            if nm not in (PATH + "drop_first", PATH + "drop_last"):
+                continue
+            own, other = ("first", "last") if nm.endswith("drop_first") else ("last", "first")
+            seen += 1
+            ends = set()
+            for sw, callee, d in controlling_sources(fd, c):
+                if callee != ND("is_depot") or d is None or not d.args:
+                    continue
+                ch = direct_chain(fd, d.args[0], follow={N("node"): 1})
+                for x in ch:
+                    if x in (PATH + "first", PATH + "last"):
+                        ends.add(x.split("::")[-1])
+            if other in ends:
+                bad.append((c, "%s() runs only when the %s node of the path is a depot as well" % (nm.split("::")[-1], other)))
+            elif own not in ends:
+                bad.append((c, "%s() does not depend on whether the %s node is a depot" % (nm.split("::")[-1], own)))
+    if bad:
+        ctx.bad(o, "%s (%s): a path with a depot at one end only keeps it / loses a trip when it is put into a dummy tour" % (bad[0][1], bad[0][0].line()),
+                loc=bad[0][0].line())
+    elif seen >= 2:
+        ctx.ok(o, "%d stripping calls, each under its own depot test" % seen)
+    else:
+        ctx.undecided(o, "%d stripping call(s) found" % seen)
+
+
 def hand_back(ctx):
     o, fd = ctx.require_fn("R1.insert_path-reports-what-it-cut", "T1", T("insert_path"),
                            "the path returned by insert_path is exactly what the splice removed from the node vector")
@@ -289,6 +326,7 @@ def rules(ctx):
     gap_guard(ctx)
     none_means_all_reachable(ctx)
     hand_back(ctx)
+    depot_stripping(ctx)
     refusals(ctx)
     tie_prefilter(ctx)
     bisection_rules(ctx)
